@@ -425,6 +425,22 @@ def boot_and_check(meta: dict, cfg: dict, history: list, prop="C11") -> list[Fai
                     un = state[nm].get("UIDNEXT")
                     if un is not None and got and un <= max(uids):
                         fail("C11.uidnext-not-above-assigned", {}, f"> {max(uids)}", un)
+            # life goes on after the recovery: the next message stored in each mailbox gets a UID no client has seen
+            # (a recovery that looks right may still hand the number -- and the UID -- of a vanished message to the next arrival)
+            if not fails:
+                from ..sessions import imap_literal
+
+                for nm in sorted(state):
+                    rv = meta["revealed_live"].get(nm)
+                    if not rv or state[nm].get("UIDVALIDITY") != rv["vv"]:
+                        continue
+                    r3, _ = o.do(f"APPEND {_q(nm)} () ".encode() + imap_literal(msgs.make("after" + str(len(nm)))))
+                    code = [str(c_) for c_ in (r3.code or [])] if r3 is not None else []
+                    if r3 is None or r3.typ != "OK" or len(code) != 3 or code[0].upper() != "APPENDUID":
+                        fail("C11.append-after-recovery-failed", {"mbox": "INBOX" if nm == "INBOX" else "other"}, "OK [APPENDUID ..]", str(r3.raw[:120] if r3 else None))
+                        continue
+                    if int(code[1]) == rv["vv"] and int(code[2]) <= rv["max"]:
+                        fail("C11.uid-reused-after-recovery", {"mbox": "INBOX" if nm == "INBOX" else "other"}, f"> {rv['max']}", int(code[2]))
             return fails
         finally:
             try:
